@@ -115,6 +115,13 @@ def auto_discharge(body, kind, bb, t, prog):
         if msg == "BoundsCheck":
             ln = body.origin_op(t["ops"][0], bb, len(body.blocks[bb]["stmts"]))
             ix = body.origin_op(t["ops"][1], bb, len(body.blocks[bb]["stmts"]))
+            # an item of `chunks_exact(n)` has exactly n elements
+            it = T.find(ln, lambda x: isinstance(x, tuple) and x[0] == "somepayload" and T.is_call(T.peel(x[1], payloads=False), r"ChunksExact<'a, T> as std::iter::Iterator>::next$"))
+            if it is not None and T.const_int(ix) is not None:
+                chx = T.find(it, lambda x: T.is_call(x, r"slice::<impl \[T\]>::chunks_exact$"))
+                n_ = T.const_int(chx[2][1]) if chx is not None else None
+                if n_ is not None and 0 <= T.const_int(ix) < n_:
+                    return True, "constant index %d into an item of chunks_exact(%d)" % (T.const_int(ix), n_)
             e = B.aff(ln).add(B.aff(ix), -1).add(Aff(-1))    # len - idx - 1 >= 0
             loopvars = {}
             for x in T.walk(ix):
@@ -142,6 +149,11 @@ def auto_discharge(body, kind, bb, t, prog):
                 d = e.add(r, -1)
                 if d.is_const() and d.c >= 0:
                     return True, "range start <= length from a dominating fact (len - start = %r)" % (e,)
+        return False, None
+    if kind == "slice-op" and re.search(r"::(chunks_exact|chunks)$", cname(t["func"])):
+        n = T.const_int(body.arg_origin(bb, 1))
+        if n is not None and n > 0:
+            return True, "chunk size is the non-zero constant %d" % n
         return False, None
     if kind == "slice-op" and cname(t["func"]).endswith("split_at"):
         B = Bounds(body, bb, prog.ptr_bits)
@@ -249,7 +261,7 @@ def run(ctx):
                 if its:
                     src = b.arg_origin(its[0], 0)
                     finite = T.contains(src, lambda x: isinstance(x, tuple) and x[0] == "agg" and (x[2] or "").endswith("ops::Range")) or \
-                        T.contains(src, lambda x: T.is_call(x, r"IntoIterator::into_iter$|slice::<impl \[T\]>::iter$"))
+                        T.contains(src, lambda x: T.is_call(x, r"IntoIterator>?::into_iter$|slice::<impl \[T\]>::(iter|chunks_exact|chunks)$"))
                     if finite:
                         kindl = "iterator"
                 if kindl is None:
